@@ -42,7 +42,7 @@ def _report(out, pid, r, verdicts, known, confirmed, pf):
         if v["signature"] in seen:
             continue
         seen.add(v["signature"])
-        v["reason"] = "persistence property violated" if before else "implementation left the model and violates the property"
+        v["reason"] = "the property is violated on this history (the implementation agrees with the model up to here)" if before else "implementation left the model and violates the property"
         out.violation(T.replay_of(pid, r, v))
     n = 0
     for case, (step, kind, detail) in r.mdiffs.items():
